@@ -201,6 +201,9 @@ type XROptions struct {
 	Recorder         event.Recorder
 	Extra            []xcomposite.ReconcilerOption
 	WatchStarter     xcomposite.WatchStarter
+	// Features are the feature flags the XRD reconciler derives the XR
+	// reconciler's options from (nil: none enabled).
+	Features *feature.Flags
 }
 
 // NewXRReconciler builds the composite reconciler exactly as the definition
@@ -215,12 +218,16 @@ func NewXRReconciler(xrd *v1.CompositeResourceDefinition, o XROptions) *xcomposi
 	if rec == nil {
 		rec = event.NewNopRecorder()
 	}
+	flags := o.Features
+	if flags == nil {
+		flags = &feature.Flags{}
+	}
 	eng := &fakeEngine{c: o.Cached, uc: o.Uncached}
 	dr := definition.NewReconciler(resource.ClientApplicator{Client: o.Cached, Applicator: resource.NewAPIPatchingApplicator(o.Cached)},
 		definition.WithControllerEngine(eng),
 		definition.WithRecorder(rec),
 		definition.WithLogger(logging.NewNopLogger()),
-		definition.WithOptions(apiextensionscontroller.Options{Options: controller.Options{Logger: logging.NewNopLogger(), Features: &feature.Flags{}}}),
+		definition.WithOptions(apiextensionscontroller.Options{Options: controller.Options{Logger: logging.NewNopLogger(), Features: flags, ESSOptions: &controller.ESSOptions{}}}),
 	)
 	opts := dr.CompositeReconcilerOptions(context.Background(), xrd)
 
